@@ -390,7 +390,31 @@ def chars_method(interp, st, recv, name, args, kwargs, node=None):
             yield st, exc(ValueError, "empty separator")
             return
         if name == 'split':
-            yield from _fallback(interp, st, recv, name, args, kwargs, node)
+            if m != 1:
+                yield from _fallback(interp, st, recv, name, args, kwargs, node)
+                return
+            parts, cur = [], []
+            undecided = False
+            for c in cs:
+                if isinstance(c, int):
+                    is_sep = c == sep[0]
+                elif st.entails(c != sep[0]):
+                    is_sep = False
+                elif st.entails(c == sep[0]):
+                    is_sep = True
+                else:
+                    undecided = True
+                    break
+                if is_sep:
+                    parts.append(mk(cur))
+                    cur = []
+                else:
+                    cur.append(c)
+            if undecided:
+                yield from _fallback(interp, st, recv, name, args, kwargs, node)
+                return
+            parts.append(mk(cur))
+            yield st, st.alloc(HList(items=parts))
             return
         # fork on the position of the first occurrence
         prev_not = []
